@@ -212,7 +212,7 @@ def stream_jobs(tier):
         'mixed': [('readexactly', 1), ('readline',), ('read', 2)],
     }
     jobs = []
-    bound = 1 if tier == 'quick' else 2
+    bound = 2 if tier == 'quick' else 3
     for sname, S in streams.items():
         for cname, calls in callsets.items():
             for pkt in (1, 2, 3, 5, 32768):
@@ -499,7 +499,7 @@ def main(tier, seed):
             'redirection kinds; (d) drain under all delivery orders (bound 2) and connection loss at every step'
             % len(orders))
     return core.finish(PROP, tier, seed, 'model_checking', acc, t0, rule,
-                       {'stream_execs': n_a, 'exit_orders': len(orders), 'deviation_bound': 1 if tier == 'quick' else 2},
+                       {'stream_execs': n_a, 'exit_orders': len(orders), 'deviation_bound': 2 if tier == 'quick' else 3},
                        assumptions=['OS pipe redirection targets need connect_read_pipe/connect_write_pipe, which the '
                                     'virtual loop does not provide: not covered',
                                     'readuntil with a stream longer than the window (documented limit overrun) not compared'])
